@@ -118,7 +118,8 @@ def dsl_vars(d, out=None, role="num", acc=None):
         dsl_vars(d[3], None, role, acc)
     elif k == "sub":
         dsl_vars(d[1], None, "arr", acc)
-        dsl_vars(d[2], None, "num", acc)
+        for x in d[2:]:
+            dsl_vars(x, None, "num", acc)
     elif k == "attr:size":
         dsl_vars(d[1], None, "arr", acc)
     elif k == "call":
